@@ -237,7 +237,19 @@ def generate():
 
 
 def write(path):
+    """(re)generate the parser-side spec module.  Every worker process of a check calls this while others may be reading the
+    file: it is rewritten only when its content would change, and then atomically (temp file + rename), never in place"""
+    import os
+    import tempfile
     txt = generate()
-    with open(path, 'w') as f:
+    try:
+        with open(path) as f:
+            if f.read() == txt:
+                return txt
+    except OSError:
+        pass
+    fd, tmp = tempfile.mkstemp(prefix='.gen_parse.', suffix='.tmp', dir=os.path.dirname(path) or '.')
+    with os.fdopen(fd, 'w') as f:
         f.write(txt)
+    os.replace(tmp, path)
     return txt
